@@ -5,6 +5,7 @@ import Req.Client.Merge
 import Req.H2.Fields
 import Req.H1.Origin
 import Req.H3.BodyWrite
+import Req.H1.RoundTrip
 /-! Driver lanes of C01. -/
 namespace Req.Driver.L.C01
 open Req.Proto
@@ -185,6 +186,31 @@ def laneH1 (args : List String) : String :=
       if order.isEmpty then "ok " ++ Wire.showBlob wire
       else Wire.showOrdered wire order
 
+/-- `c01send <full|head> …` (then the arguments of `c01h1`): `Transport.roundTrip`'s validation +
+`persistConn.writeRequest`: the error class, or the bytes on the wire (`head`: only up to the
+blank line — used when the reference server parser refused the request, so that the capture of
+the body is not reliable). -/
+def laneSend : List String → String
+  | mode :: args =>
+    match decodeWReq args with
+    | none => "bad-op"
+    | some r =>
+      match Req.H1.sendH1 r with
+      | .error .invalidHeader => "err:header"
+      | .error .invalidMethod => "err:method"
+      | .error .noHost => "err:nohost"
+      | .error (.write e) => showWErr e
+      | .ok wire =>
+        let order := Req.H1.orderList r.header
+        if mode == "head" then
+          let (head, _) := Wire.splitHead wire
+          if order.isEmpty then "head " ++ Wire.showBlob head
+          else "head-" ++ Wire.showOrdered (head ++ [13, 10, 13, 10]) order
+        else
+          if order.isEmpty then "ok " ++ Wire.showBlob wire
+          else Wire.showOrdered wire order
+  | _ => "bad-op"
+
 /-- cookies: `name:value:q,…` (hex, q = 0/1) or `-`. -/
 def decodeCookies (s : String) : Option (List Req.Merge.Cookie) :=
   if s == "-" then some [] else
@@ -283,6 +309,7 @@ def laneH3Body : List String → String
   | _ => "bad-op"
 
 def lanes : List (String × (List String → String)) := [
+  ("c01send", laneSend),
   ("c01h2body", laneH2Body),
   ("c01h3body", laneH3Body),
   ("c01pipe", lanePipe),
